@@ -142,10 +142,17 @@ def inv_retry_loop(self, result, retries):
 
 def havoc_frag(self):
     havoc_radio_io(self)
-    self._rf24._spi.hw.ce = oracle_int(0, 1) == 1
+    hw = self._rf24._spi.hw
+    hw.ce = oracle_int(0, 1) == 1
     h = self.frame_buf.header
     h.message_type = oracle_int(0, 255)
     h.reserved = oracle_int(0, 255)
+    # the ghost air log: every fragment already sent went through send()
+    hw.air_aa = oracle_int(0, 1)
+    hw.air_addr = oracle_bytes(5, 5)
+    hw.air_first_addr = oracle_bytes(5, 5)
+    hw.air_first = oracle_bytes(0, 32)
+    hw.air_last = oracle_bytes(0, 32)
 
 
 def frag_fixed(self):
@@ -285,12 +292,13 @@ def havoc_update_loop(self):
     havoc_update(self)
     hw = self._rf24._spi.hw
     hw.rx_n = oracle_int(0, 3)
-    hw.rx_pipe[0] = oracle_int(0, 5)
-    hw.rx_len[0] = oracle_int(1, 32)
-    cells = []
-    for k in range(32):
-        cells.append(oracle_int(0, 255))
-    hw.rx_data[0] = bytes(cells)
+    for j in range(3):
+        hw.rx_pipe[j] = oracle_int(0, 5)
+        hw.rx_len[j] = oracle_int(1, 32)
+        cells = []
+        for k in range(32):
+            cells.append(oracle_int(0, 255))
+        hw.rx_data[j] = bytes(cells)
 
 
 def abs_net_update(self):
@@ -372,6 +380,12 @@ def abs_begin(self, n_addr):
 
 def begin_effects(self, n_addr):
     """footprint + assumed post of _begin (its contract is C07.begin)"""
+    begin_havoc(self, n_addr)
+    assume(node_ok(self) and self._net_lvl == level(n_addr))
+
+
+def begin_havoc(self, n_addr):
+    """everything _begin() writes, scrambled (no assumption made here)"""
     havoc_radio_io(self)
     havoc_tx_cfg(self)
     r = self._rf24
@@ -393,7 +407,6 @@ def begin_effects(self, n_addr):
     self._mask_inv = oracle_int(0, 0xFFFF)
     self._parent = oracle_int(0, 4095)
     self._parent_pipe = oracle_int(0, 7)
-    assume(node_ok(self) and self._net_lvl == level(n_addr))
 
 
 def req_node(self):
@@ -526,3 +539,36 @@ def ens_node_ok_or_raise(self, old_self, exc):
 
 def ens_listening_any_addr(self, exc):
     return exc is None and node_ok(self)
+
+
+# ---- constructors: the base case of "whenever ... returns, the node listens on all its addresses"
+
+def req_net_init(self, spi, csn, ce_pin, node_address, spi_frequency):
+    from spec.rf24_state import hw_ranges
+    return hw_ranges(spi.hw) and same_object(ce_pin.hw, spi.hw) and (valid_node(node_address) or not valid_address(node_address))
+
+
+def ens_net_init(self, node_address, exc):
+    """a valid node address: the new node listens on all its addresses; anything else is refused
+    with ValueError"""
+    if exc is not None:
+        return exc == "ValueError" and not valid_node(node_address)
+    return valid_node(node_address) and node_ok(self) and self._addr == node_address and self._net_lvl == level(node_address)
+
+
+from pyvc.specrt import same_object  # noqa: E402
+from pyvc.schema import Obj  # noqa: E402
+from spec.rf24_state import radio_schema  # noqa: E402
+from spec.c09 import INIT_POL  # noqa: E402
+
+NET_INIT_POL = dict(INIT_POL)
+NET_INIT_POL.update(POL)
+NET_INIT_POL.update({"rf24:RF24.__init__": "inline", "mixins:RadioMixin.__init__": "inline", "mixins:NetworkMixin.__init__": "inline",
+                     "mixins:NetworkMixin._begin": "ref:" + R + "abs_begin", "structs:FrameQueueFrag.__init__": "inline",
+                     "structs:FrameQueue.__init__": "inline", "rf24_network:RF24NetworkRoutingOnly.__init__": "inline"})
+CONTRACTS.append(
+    Contract("C07.init", "rf24_network:RF24NetworkRoutingOnly.__init__",
+             {"self": Obj("rf24_network:RF24NetworkRoutingOnly", {}), "spi": Obj("spec.hw:SpiStub", {"hw": radio_schema()}), "csn": Const(None),
+              "ce_pin": Obj("spec.hw:Pin", {"hw": radio_schema()}), "node_address": Int(0, 0xFFFF), "spi_frequency": Const(10000000)},
+             requires=[R + "req_net_init"], ensures=[("listening", R + "ens_net_init")], raises=("ValueError",), policy=NET_INIT_POL,
+             props=["C07"], replayable=False))
